@@ -300,6 +300,16 @@ def systematic(libs):
                        {'op': 'evalgroup', 'h': 3, 'g': 'Zz(Q)2', 'p': 'Cp', 't': 2},
                        {'op': 'decompose', 'h': 1, 'm': 'CC'}, {'op': 'estimate', 'h': 1, 'd': 1},
                        {'op': 'eval', 'e': 1, 'p': 'H', 't': 1, 'sel': False}])
+        # the same source merged again after something else overwrote its data: with overwriting it wins
+        # again, without it is the conflict (last step: a refused merge may leave the target partly merged)
+        for ow_last in (True, False):
+            hs.append([{'op': 'load', 'h': 1, 'L': 'X1'}, {'op': 'load', 'h': 2, 'L': 'X2'},
+                       {'op': 'load', 'h': 3, 'L': 'X3'},
+                       {'op': 'update', 'h': 1, 'h2': 2, 'ow': False},
+                       {'op': 'update', 'h': 1, 'h2': 3, 'ow': True},
+                       {'op': 'evalgroup', 'h': 1, 'g': 'Zz(Q)2', 'p': 'H', 't': 1},
+                       {'op': 'update', 'h': 1, 'h2': 2, 'ow': ow_last}] +
+                      ([{'op': 'evalgroup', 'h': 1, 'g': 'Zz(Q)2', 'p': 'H', 't': 1}] if ow_last else []))
         hs.append([{'op': 'load', 'h': 2, 'L': 'X2'}, {'op': 'load', 'h': 3, 'L': 'X3'},
                    {'op': 'update', 'h': 2, 'h2': 3, 'ow': True},
                    {'op': 'evalgroup', 'h': 2, 'g': 'Zz(Q)2', 'p': 'H', 't': 1},
